@@ -1,19 +1,21 @@
 PROP = {
     "id": "C30",
     "theorem_modules": ["Verif.Properties.C30"],
-    "min_theorems": 10,
+    "min_theorems": 14,
     "required_theorems": [
         "Verif.Properties.C30.meterfacts_ok",
         "Verif.Properties.C30.terminates",
         "Verif.Properties.C30.uncharged_loop_never_stops",
         "Verif.Properties.C30.depth",
         "Verif.Properties.C30.depth_engines_agree",
+        "Verif.Properties.C30.sequential_calls_do_not_accumulate",
+        "Verif.Properties.C30.vm_destroy_event_frames_witness",
     ],
     "gen": [["vtool", "gen-meterfacts"]],
     "tool_files": ["tool_cachefacts.go", "tool_meterfacts.go"],
     "streams": [
         {"name": "bounded", "driver": "drv_bounded",
-         "quick": {"n": 26}, "thorough": {"n": 260, "seeds": 2},
+         "quick": {"n": 28}, "thorough": {"n": 280, "seeds": 2},
          "timeout": {"quick": 5400, "thorough": 14000}},   # (upper limits: a hang verdict is re-confirmed alone with 3x the bound)
     ],
     "exhaustive": False,
@@ -32,19 +34,33 @@ PROP = {
                   "below the entry point succeeds in the interpreter iff it succeeds in the VM, iff n <= the effective limit "
                   "(full, after the fixes 4e6bf8c: the VM environment applies the configured limit, and bc0b586: its limit "
                   "is the configured one + 1 for the entry point's frame; vm_default_limit_ignores_configuration_witness / "
-                  "vm_same_limit_off_by_one_witness show on the model why each fix is needed). "
+                  "vm_same_limit_off_by_one_witness show on the model why each fix is needed); "
+                  "sequential_calls_do_not_accumulate — k >= 1 invocations made one after the other, base invocations below the "
+                  "entry point, succeed in both engines iff base + 1 <= the effective limit and leave the depth unchanged, whatever k "
+                  "is (unbalanced_return_accumulates_witness: a lost return report makes 4 sequential calls fail under limit 3); "
+                  "vm_destroy_event_frames_witness / destroy_event_engines_agree_partial — the known finding "
+                  "vm-destroy-event-counts-call-frames and agreement outside its region. "
                   "FX: gen-meterfacts — the Go `for` loop of VisitWhileStatement charges Loop + Statement, "
                   "visitForStatementBody (per element) charges Loop, every statement / invocation charges; the compiler emits "
                   "InstructionLoop after the test jump and before body and back-edge in both loop forms, VM.run dispatches it to "
                   "opLoop which charges Loop, invokeFunction charges FunctionInvocation; both depth checks raise "
                   "CallStackLimitExceededError; the statements of newStackDepthLimiter / vmStackDepthLimit (how each engine derives "
                   "its limit from the configuration: the model's interpEffectiveLimit / vmEffectiveLimit) and newVMConfig's use of it; meterfacts_ok (decide) = pinned + every cycle charged. CC (supporting exploration): "
-                  "stream bounded runs 26 families (endless while/for, loops over growing arrays / dictionaries / strings, doubling, "
-                  "squaring big integers, mutual / closure / method recursion, deep value construction followed by printing, "
+                  "stream bounded runs 28 families (endless while/for, loops over growing arrays / dictionaries / strings, doubling, "
+                  "squaring big integers, mutual / closure / method / struct-init / resource-init recursion, deep value construction followed by printing, "
                   "export, type comparison, storage) in a fresh process each, both engines, under computation limit x memory "
                   "limit x a load-calibrated wall-clock bound (>= 240 s, 40x a timed reference run scaled by the limit) x 12 GB address space; violation = no stop within the bound, internal error, escaped "
                   "panic or crash; depth programs at limit-3..limit+5 under default and configured limits, as function / method / closure / "
-                  "mutual recursion and inside a transaction, in both engines against the model. A hang verdict (and a child "
+                  "mutual recursion and inside a transaction, and through composite initializers (struct init constructing the struct, "
+                 "resource init creating the resource with and without keeping the child / with a ResourceDestroyed event, "
+                 "init -> method -> init; limits default / 10 / 50, limit-2 .. 5x limit), in both engines against the model; "
+                 "seq operations: 3x the limit sequential invocations of 20 invocation forms (function, method, optional chaining on "
+                 "non-nil struct / reference / resource / Void method and on nil, reference, closure, bound and unbound function "
+                 "values, conditions, interface method, struct / resource constructor, create + destroy with event, log, toString, "
+                 "append, conversion) without recursion, in the entry point, at depth limit - 1 and (Cadence functions) at depth "
+                 "= limit, in both engines against spec and model. Recursion through destroy-triggered default-event evaluation "
+                 "does not exist (default event arguments cannot contain invocations); the VM's two frames per event are the "
+                 "known finding. A hang verdict (and a child "
                   "killed from outside) is reported only after the operation was re-run alone with 3x the bound.",
     "level_note": "Partial: that the real evaluators are instances of the disciplined machine is established only for the listed "
                   "loop / statement / invocation paths by the fact table (no model of the evaluator itself); Go-runtime stack "
